@@ -62,7 +62,7 @@ class Cache:
         ref = self.ahash.hexdigest()
 
         if ref in Cache._cache:
-            return Cache._cache[ref]
+            data = Cache._cache[ref]
         else:
             data = self.func(*args, **kwargs)
             Cache._cache[ref] = data
@@ -70,6 +70,17 @@ class Cache:
             if len(Cache._keys) > MAX_SIZE:
                 delref = Cache._keys.pop(0)
                 Cache._cache.pop(delref)
+        # Return a copy, so that in-place modifications of the
+        # result by the caller do not alter the cached data.
+        return self._copy_result(data)
+
+    @staticmethod
+    def _copy_result(data):
+        if isinstance(data, np.ndarray):
+            return data.copy()
+        elif isinstance(data, tuple):
+            return tuple(Cache._copy_result(d) for d in data)
+        else:
             return data
 
     def _update_hash(self, arg):
